@@ -6,7 +6,7 @@ P=$(realpath "$1"); PID=$2; TIER=${3:-quick}
 D=$(mktemp -d /tmp/mut.XXXXXX)
 cp -r /repo/src "$D/src"
 find "$D/src" -name '*.so' -delete -o -name '*.c' -delete
-(cd "$D" && patch -s -p1 < "$P")
+if ! (cd "$D" && patch -s -p1 < "$P"); then echo "PATCH-FAILED"; rm -rf "$D"; echo "exit=3"; exit 3; fi
 cd /verif
 set +e
 VERIF_REPO="$D" ./check "$PID" --tier "$TIER" 2>&1 | tail -${TAIL:-6}
